@@ -49,6 +49,10 @@ pub struct Weights {
     pub hold_signer: u32,
     pub hold_parent_syncs: u32,
     pub check: u32,
+    /// operator actions that make failing exchanges succeed again (child
+    /// added again at the parent, child identity registered at the parent,
+    /// publisher re-created)
+    pub heal: u32,
     /// requests that overlap with a running task
     pub overlap: u32,
     /// publications of a publisher that is not a CA
@@ -86,6 +90,7 @@ impl Default for Weights {
             hold_signer: 0,
             hold_parent_syncs: 0,
             check: 5,
+            heal: 0,
             overlap: 0,
             foreign: 0,
             max_advance: 14 * 86400,
@@ -230,6 +235,15 @@ pub fn op_strategy(w: &Weights, n_cas: usize, cfg: &WorldCfg, edges: &[(u8, u8)]
         prop_oneof![
             ca_idx(n).prop_map(|ca| Op::PublisherRemove { ca }),
             ca_idx(n).prop_map(|ca| Op::PublisherReadd { ca }),
+        ]
+        .boxed(),
+    );
+    add(
+        w.heal,
+        prop_oneof![
+            3 => (pair(), res_mask()).prop_map(|((parent, child), res)| Op::ChildReadd { parent, child, res }),
+            3 => pair().prop_map(|(parent, child)| Op::ChildIdSync { parent, child }),
+            2 => ca_idx(n).prop_map(|ca| Op::PublisherReadd { ca }),
         ]
         .boxed(),
     );
